@@ -262,7 +262,10 @@ Proof.
     destruct wh as [|[|[|wh]]]; [| | |cbn in P1; discriminate]; cbn [seek_target Nat.eqb orb] in P2, P4.
     + (* SEEK_SET *)
       cbn [ss_step0 ss_seek ref_step seek_target].
-      replace (off <? 0)%Z with false by lia.
+      destruct (off <? 0)%Z eqn:Neg.
+      { (* a negative position: ValueError, nothing moves *)
+        cbn [fst snd]. split; [reflexivity|].
+        split; [exact (conj V (conj Ch (conj T I)))|apply same_cfg_refl]. }
       destruct (ss_seek_set_spec (rf_data f) V s (Z.to_nat off) D Ok Ch) as [S1 [S2 S3]].
       cbn [fst snd]. rewrite S2. split; [reflexivity|]. split; [|exact S3].
       apply Mk; auto. apply S3.
